@@ -24,5 +24,8 @@ CHECK = dict(
         dict(name="geoip", dir="internal/geoip", src="C10/geoip", runs=[
             dict(name="country-scan", run="^TestVerifC10CountryScan$", quick=1500, thorough=60000, shards_thorough=4),
         ]),
+        dict(name="profiledb", dir="internal/profiledb", src="C10/profiledb", runs=[
+            dict(name="access-after-restart", run="^TestVerifC10AccessAfterRestart$", quick=800, thorough=30000, shards_thorough=4),
+        ]),
     ],
 )
